@@ -300,10 +300,10 @@ Outcome(J, pr, pskind, kind, F, cb) ==
            rt |-> ~im.outside /\ (im.raises \/ ((\A i \in 1..n : im.imp[i] /\ im.exact[i]) /\ ~im.stray))]
 
 \* which deviation explains a failing outcome: the first of D5, D3, D4, D2, D1 whose (cumulative) repair satisfies the requirement
-Blame(J, pr, pskind, kind, F, cb) ==
+Blame(J, pr, pskind, kind, F, cb, rt0) ==       \* rt0 = Outcome(J, pr, pskind, kind, F, cb).rt
   LET F5 == [F EXCEPT !.d5 = TRUE]
       F3 == [F5 EXCEPT !.d3 = TRUE]  F4 == [F3 EXCEPT !.d4 = TRUE]  F2 == [F4 EXCEPT !.d2 = TRUE]  F1 == [F2 EXCEPT !.d1 = TRUE]
-  IN IF Outcome(J, pr, pskind, kind, F, cb).rt THEN "none"
+  IN IF rt0 THEN "none"
      ELSE IF Outcome(J, pr, pskind, kind, F5, cb).rt THEN "D5"
      ELSE IF Outcome(J, pr, pskind, kind, F3, cb).rt THEN "D3"
      ELSE IF Outcome(J, pr, pskind, kind, F4, cb).rt THEN "D4"
@@ -357,16 +357,18 @@ IdIdx == {i \in 1..Len(Tab) : Tab[i].k = "id"}
 IdTbl == IF MODE = "universe" THEN [u \in 1..NU |-> Tab[CHOOSE i \in IdIdx : Tab[i].u = u].r] ELSE <<>>
 JobOf(u) == [u |-> u, sp |-> Universe[u], id |-> IdTbl[u], doc |-> u % 3 # 0, nested |-> u % 2 = 1]
 Perms(S) == LET m == Cardinality(S) IN {s \in [1..m -> S] : \A i, j \in 1..m : i # j => s[i] # s[j]}
+\* a case is kept small (state = [tag, us, ps]); the jobs are looked up when a theorem is evaluated:
+\* universe mode: us = universe indices in listing order; file mode: tag = line of the harness file, us = 1..n
 UCases == IF MODE # "universe" THEN {} ELSE
-          UNION {UNION {{[tag |-> 0, J |-> [i \in 1..Len(s) |-> JobOf(s[i])], ps |-> p] : p \in 1..Len(PathSpecs)}
+          UNION {UNION {{[tag |-> 0, us |-> s, ps |-> p] : p \in 1..Len(PathSpecs)}
                         : s \in Perms(S)} : S \in {S \in UNION {kSubset(k, 1..NU) : k \in 0..MAXJOBS} : SumSet(S) % NPARTS = PART}}
 FileIn == IF MODE = "file" THEN ndJsonDeserialize(IOEnv.C16_CASES) ELSE <<>>
-FCase(r) == [tag |-> r.tag, ps |-> r.ps,
-             J |-> [i \in 1..Len(r.jobs) |-> [u |-> r.jobs[i].u, sp |-> FromWire(r.jobs[i].sp), id |-> r.jobs[i].id,
-                                               doc |-> r.jobs[i].doc, nested |-> r.jobs[i].nested]]]
+FJobs(r) == [i \in 1..Len(r.jobs) |-> [u |-> r.jobs[i].u, sp |-> FromWire(r.jobs[i].sp), id |-> r.jobs[i].id,
+                                        doc |-> r.jobs[i].doc, nested |-> r.jobs[i].nested]]
 Cases == CASE MODE = "universe" -> UCases
-           [] MODE = "file"     -> {FCase(FileIn[i]) : i \in 1..Len(FileIn)}
-           [] OTHER             -> {[tag |-> 0, J |-> <<>>, ps |-> 1]}
+           [] MODE = "file"     -> {[tag |-> i, us |-> [k \in 1..Len(FileIn[i].jobs) |-> k], ps |-> FileIn[i].ps] : i \in 1..Len(FileIn)}
+           [] OTHER             -> {[tag |-> 0, us |-> <<>>, ps |-> 1]}
+JobsOf(x) == IF MODE = "file" THEN FJobs(FileIn[x.tag]) ELSE [i \in 1..Len(x.us) |-> JobOf(x.us[i])]
 
 VARIABLE c
 Init == c \in Cases
@@ -379,21 +381,23 @@ CompsOf(pr) == [i \in 1..Len(pr) |-> NormComps(pr[i].s)]
 
 (* theorems checked on every case (pr, comps are bound once per case: TLC re-evaluates definitions, not LETs) *)
 \* the acceptance condition is exactly the condition under which an ideal export/import round trip is the identity
-AcceptExact == LET pr == PathsOf(c.J, PS)  comps == CompsOf(pr) IN
-  AllOk(pr) => (Accept(comps) <=> IdealRoundTrip(c.J, comps))
+AcceptExact == LET J == JobsOf(c)  pr == PathsOf(J, PS)  comps == CompsOf(pr) IN
+  AllOk(pr) => (Accept(comps) <=> IdealRoundTrip(J, comps))
 \* a map that is not accepted must be rejected before any job is copied (holds for the repaired model only)
-RejectBeforeCopy == LET pr == PathsOf(c.J, PS)  comps == CompsOf(pr) IN
-  (AllOk(pr) /\ ~Accept(comps)) => \A k \in Kinds : ExportOf(c.J, pr, PS.kind, k, Flags).res = "clean"
+RejectBeforeCopy == LET J == JobsOf(c)  pr == PathsOf(J, PS)  comps == CompsOf(pr) IN
+  (AllOk(pr) /\ ~Accept(comps)) => \A k \in Kinds : ExportOf(J, pr, PS.kind, k, Flags).res = "clean"
 \* RoundTripOK \/ RaisedCleanly, for every target kind, for state point files and callable schemas
-Requirement == LET pr == PathsOf(c.J, PS) IN \A k \in Kinds : \A cb \in BOOLEAN : Outcome(c.J, pr, PS.kind, k, Flags, cb).rt
+Requirement == LET J == JobsOf(c)  pr == PathsOf(J, PS) IN \A k \in Kinds : \A cb \in BOOLEAN : Outcome(J, pr, PS.kind, k, Flags, cb).rt
 \* every failure of the conformant model is explained by a named deviation
-NoUnexplained == LET pr == PathsOf(c.J, PS) IN \A k \in Kinds : \A cb \in BOOLEAN : Blame(c.J, pr, PS.kind, k, Flags, cb) # "unexplained"
+\* (the exported blame field carries the same information; the driver refuses an "unexplained" blame)
+NoUnexplained == LET J == JobsOf(c)  pr == PathsOf(J, PS) IN \A k \in Kinds : \A cb \in BOOLEAN :
+                   Blame(J, pr, PS.kind, k, Flags, cb, Outcome(J, pr, PS.kind, k, Flags, cb).rt) # "unexplained"
 \* the repaired model never fails
-RepairedOk == LET pr == PathsOf(c.J, PS) IN \A k \in Kinds : \A cb \in BOOLEAN : Outcome(c.J, pr, PS.kind, k, AllFixed, cb).rt
+RepairedOk == LET J == JobsOf(c)  pr == PathsOf(J, PS) IN \A k \in Kinds : \A cb \in BOOLEAN : Outcome(J, pr, PS.kind, k, AllFixed, cb).rt
 \* import never writes outside the job directories of the importing project
-ImportFrame == LET pr == PathsOf(c.J, PS) IN \A k \in Kinds : \A cb \in BOOLEAN : ~Outcome(c.J, pr, PS.kind, k, Flags, cb).stray
+ImportFrame == LET J == JobsOf(c)  pr == PathsOf(J, PS) IN \A k \in Kinds : \A cb \in BOOLEAN : ~Outcome(J, pr, PS.kind, k, Flags, cb).stray
 \* export writes only beneath its target (holds for the repaired model only: DEVIATION D5)
-ExportFrame == LET pr == PathsOf(c.J, PS) IN \A k \in Kinds : ~Outcome(c.J, pr, PS.kind, k, Flags, FALSE).outside
+ExportFrame == LET J == JobsOf(c)  pr == PathsOf(J, PS) IN \A k \in Kinds : ~Outcome(J, pr, PS.kind, k, Flags, FALSE).outside
 \* import into a project in which the jobs E already exist.  As the code: copytree refuses an existing job directory
 \* (DestinationExistsError; directories are copied one by one in crawl order until then), archives test
 \* os.path.exists(job.path) for every identified job before anything is copied.
@@ -401,14 +405,16 @@ ImportInto(o, kind, E) ==        \* o = Outcome(...) of the export + import into
   LET ident == {i \in 1..Len(o.ident) : o.exp = "ok" /\ o.ident[i]}
   IN [raises |-> ident \cap E # {} \/ o.impraise, exists |-> ident \cap E # {},
       maywrite |-> IF (ident \cap E # {} /\ kind # "dir") \/ o.impraise THEN {} ELSE ident \ E]
+\* which jobs may already exist: every subset for small projects, else none / each single job / all
+Existing(n) == IF n <= 4 THEN SUBSET (1..n) ELSE {{}, 1..n} \cup {{i} : i \in 1..n}
 \* import never overwrites an existing job
-NeverOverwrite == LET pr == PathsOf(c.J, PS) IN \A k \in Kinds :
-                    LET o == Outcome(c.J, pr, PS.kind, k, Flags, FALSE) IN
-                    \A E \in SUBSET (1..Len(c.J)) : ImportInto(o, k, E).maywrite \cap E = {}
+NeverOverwrite == LET J == JobsOf(c)  pr == PathsOf(J, PS) IN \A k \in Kinds :
+                    LET o == Outcome(J, pr, PS.kind, k, Flags, FALSE) IN
+                    \A E \in Existing(Len(J)) : ImportInto(o, k, E).maywrite \cap E = {}
 \* a schema string parses back the layout it describes
-SchemaCase == PS.kind = "none" /\ SchemaApplicable(c.J)
-SchemaParseBack == SchemaCase => LET sch == SchemaOf(c.J)  comps == CompsOf(PathsOf(c.J, PS)) IN \A i \in 1..Len(c.J) :
-                     LET r == ParseBack(sch, comps[i]) IN r.ok /\ r.flat = Flat(c.J[i].sp, <<>>)
+SchemaCase == PS.kind = "none" /\ SchemaApplicable(JobsOf(c))
+SchemaParseBack == SchemaCase => LET J == JobsOf(c)  sch == SchemaOf(J)  comps == CompsOf(PathsOf(J, PS)) IN \A i \in 1..Len(J) :
+                     LET r == ParseBack(sch, comps[i]) IN r.ok /\ r.flat = Flat(J[i].sp, <<>>)
 
 -----------------------------------------------------------------------------
 (* export of the cases with everything the driver compares.
@@ -417,15 +423,15 @@ SchemaParseBack == SchemaCase => LET sch == SchemaOf(c.J)  comps == CompsOf(Path
 OutKind(J, pr, pskind, k, cb) == LET o == Outcome(J, pr, pskind, k, Flags, cb) IN
   [exp |-> o.exp, ncopied |-> o.ncopied, imp |-> o.imp, exact |-> o.exact, stray |-> o.stray, rt |-> o.rt,
    impraise |-> o.impraise, outside |-> o.outside,
-   blame |-> Blame(J, pr, pskind, k, Flags, cb),
+   blame |-> Blame(J, pr, pskind, k, Flags, cb, o.rt),
    existing |-> Len(J) >= 1 /\ ImportInto(o, k, {1}).raises, existingdee |-> Len(J) >= 1 /\ ImportInto(o, k, {1}).exists]
-OutCase(x) == LET J == x.J  ps == PathSpecs[x.ps]  n == Len(J)
+OutCase(x) == LET J == JobsOf(x)  ps == PathSpecs[x.ps]  n == Len(J)
                   pr == PathsOf(J, ps)
                   comps == CompsOf(pr)
                   allok == AllOk(pr)
                   sc == ps.kind = "none" /\ SchemaApplicable(J)
                   sch == SchemaOf(J) IN
-  [tag |-> x.tag, ps |-> x.ps, us |-> [i \in 1..n |-> J[i].u],
+  [tag |-> IF MODE = "file" THEN FileIn[x.tag].tag ELSE 0, ps |-> x.ps, us |-> [i \in 1..n |-> J[i].u],
    doc |-> [i \in 1..n |-> J[i].doc], nested |-> [i \in 1..n |-> J[i].nested],
    pathsok |-> allok, paths |-> [i \in 1..n |-> pr[i].s],
    accept |-> allok /\ Accept(comps),
